@@ -86,6 +86,26 @@ def kvInsert (k : String) (v : Value) : List (String × Value) → List (String 
 def mkRecord (kvs : List (String × Value)) : Value :=
   .record (kvs.foldl (fun acc kv => kvInsert kv.1 kv.2 acc) [])
 
+/-- `kvInsert` for any payload: insert into a key-sorted association list, a later entry with the same key
+    replaces the earlier one (Go map assignment `m[k] = x`) -/
+def insKey {α : Type} (k : String) (x : α) : List (String × α) → List (String × α)
+  | [] => [(k, x)]
+  | (k', x') :: rest =>
+    if k < k' then (k, x) :: (k', x') :: rest
+    else if k == k' then (k, x) :: rest
+    else (k', x') :: insKey k x rest
+
+/-- The entries of a Go `map[string]α` built by assigning the pairs in the given order (a later duplicate key
+    overwrites the earlier one), listed the way `slices.Sorted(maps.Keys(m))` visits them: distinct keys in
+    ascending byte order.  This is the order in which a record literal evaluates its entries. -/
+def canonKVs {α : Type} (kvs : List (String × α)) : List (String × α) :=
+  kvs.foldl (fun acc kv => insKey kv.1 kv.2 acc) []
+
+/-- first error in list order wins, otherwise all the values (`for … { v, err := …; if err != nil { return err } }`) -/
+def seqKVs {ε α : Type} : List (String × Except ε α) → Except ε (List (String × α))
+  | [] => .ok []
+  | (k, r) :: rest => do let v ← r; let vs ← seqKVs rest; .ok ((k, v) :: vs)
+
 def kvGet (k : String) : List (String × Value) → Option Value
   | [] => none
   | (k', v) :: rest => if k == k' then some v else kvGet k rest
